@@ -195,6 +195,53 @@ pub fn selftest() -> Vec<String> {
         vec![(f("a", "p", "a"), 3), (f("a", "p", "b"), 9), (f("a", "loop", "yes"), 3)],
     );
     // 10. nothing alive -> nothing derived
-    expect("empty", fixpoint_alive(&[copy, join, trans], &[(f("a", "p", "b"), 5)], 5), vec![]);
+    expect("empty", fixpoint_alive(&[copy.clone(), join, trans], &[(f("a", "p", "b"), 5)], 5), vec![]);
+    // 11. three premises: min over three sources, a static one is neutral; the same binding through a
+    //     second, longer-lived middle fact raises the result (max over derivations)
+    let tri = Rule { premise: vec![(v("x"), c("p"), v("y")), (v("y"), c("q"), v("z")), (v("z"), c("k"), v("w"))], conclusion: vec![(v("x"), c("j3"), v("w"))] };
+    expect(
+        "three_premises_min",
+        fixpoint(&[tri.clone()], &[(f("a", "p", "b"), 7), (f("b", "q", "c"), 5), (f("c", "k", "d"), INF)]),
+        vec![(f("a", "p", "b"), 7), (f("b", "q", "c"), 5), (f("c", "k", "d"), INF), (f("a", "j3", "d"), 5)],
+    );
+    expect(
+        "three_premises_max_of_min",
+        fixpoint(&[tri], &[(f("a", "p", "b"), 7), (f("b", "q", "c"), 5), (f("c", "k", "d"), 9), (f("a", "p", "e"), 8), (f("e", "q", "c"), 6)]),
+        vec![(f("a", "p", "b"), 7), (f("b", "q", "c"), 5), (f("c", "k", "d"), 9), (f("a", "p", "e"), 8), (f("e", "q", "c"), 6), (f("a", "j3", "d"), 6)],
+    );
+    // 12. two conclusions: both get the premise value; one of them is also a seed with a larger /
+    //     smaller own value (max), and feeds a further rule with the improved value
+    let two = Rule { premise: vec![(v("x"), c("p"), v("y"))], conclusion: vec![(v("x"), c("q"), v("y")), (v("y"), c("r"), v("x"))] };
+    let after = Rule { premise: vec![(v("x"), c("r"), v("y"))], conclusion: vec![(v("x"), c("s"), v("y"))] };
+    expect(
+        "two_conclusions",
+        fixpoint(&[two.clone(), after.clone()], &[(f("a", "p", "b"), 4), (f("b", "r", "a"), 9), (f("c", "p", "d"), 6), (f("d", "r", "c"), 2)]),
+        vec![
+            (f("a", "p", "b"), 4),
+            (f("b", "r", "a"), 9),
+            (f("c", "p", "d"), 6),
+            (f("d", "r", "c"), 6),
+            (f("a", "q", "b"), 4),
+            (f("c", "q", "d"), 6),
+            (f("b", "s", "a"), 9),
+            (f("d", "s", "c"), 6),
+        ],
+    );
+    // 13. constants in premise and conclusion, and a fully ground premise
+    let konst = Rule { premise: vec![(c("a"), c("p"), v("y"))], conclusion: vec![(v("y"), c("c1"), c("a"))] };
+    let ground = Rule { premise: vec![(v("x"), c("p"), c("b")), (c("b"), c("p"), c("c"))], conclusion: vec![(v("x"), c("d1"), c("c"))] };
+    expect(
+        "constants_and_ground_premise",
+        fixpoint(&[konst, ground], &[(f("a", "p", "b"), 3), (f("b", "p", "c"), 8), (f("c", "p", "a"), 5)]),
+        vec![(f("a", "p", "b"), 3), (f("b", "p", "c"), 8), (f("c", "p", "a"), 5), (f("b", "c1", "a"), 3), (f("a", "d1", "c"), 3)],
+    );
+    // 14. repeated variable feeding a join on the derived self-loop
+    let selfl = Rule { premise: vec![(v("x"), c("p"), v("x"))], conclusion: vec![(v("x"), c("l1"), v("x"))] };
+    let onloop = Rule { premise: vec![(v("x"), c("q"), v("y")), (v("x"), c("l1"), v("x"))], conclusion: vec![(v("x"), c("n1"), v("y"))] };
+    expect(
+        "self_loop_join",
+        fixpoint(&[selfl, onloop], &[(f("a", "p", "a"), 3), (f("a", "p", "b"), 9), (f("a", "q", "b"), 7), (f("b", "q", "a"), 7)]),
+        vec![(f("a", "p", "a"), 3), (f("a", "p", "b"), 9), (f("a", "q", "b"), 7), (f("b", "q", "a"), 7), (f("a", "l1", "a"), 3), (f("a", "n1", "b"), 3)],
+    );
     errs
 }
